@@ -253,7 +253,7 @@ theorem callback_every_impl (env : Env) (c : Cfg) (o : Opts) (w : V)
       | ok v =>
         simp only [hv] at h
         cases h
-        exact ⟨ch, v, rfl, rfl, rfl⟩
+        exact ⟨ch, v, rfl, hv, rfl⟩
 
 /-- **callback_every_impl (histories).**  Every value an evaluation returns in any history —
     stored or freshly computed — is the callback applied to the value of an implementation that
@@ -426,13 +426,16 @@ theorem interface_default_members (s : St) (ifaces : List IfId) (aliases : List 
     simp only [applyRegs_ds]
     constructor
     · intro hnone
-      rw [regsTable_untouched]
-      · cases s.ds m.2 <;> rfl
-      · intro x hx hxd
+      have hreg : ∀ t, regsTable m.2 (implRegs (flatMembers s ifaces) aliases provided) t = t := by
+        intro t
+        apply regsTable_untouched
+        intro x hx hxd
         obtain ⟨n, hn, hp, _⟩ := mem_implRegs.mp hx
         have : n = m.1 := hfun (n, x.1) hn m hm hxd
         subst this
         rw [hnone] at hp; cases hp
+      simp only [hreg]
+      cases s.ds m.2 <;> rfl
     · intro i hi r hr
       rw [hr]
       refine ⟨_, rfl, rfl, rfl, rfl, rfl, ?_⟩
@@ -496,7 +499,7 @@ example : HistOK env0 St.init ifaceHist ∧
       simp only [step, defIface_ifs] at h
       by_cases hI : I = 0
       · subst hI
-        simp [St.setDs, St.init] at h
+        simp at h
         subst h
         simp at hmem
       · simp [hI, St.setDs, St.init] at h
@@ -543,7 +546,7 @@ theorem impl_unknown_member_rejected (s : St) (ifaces : List IfId) (aliases : Li
     obtain ⟨p, hp, hnot⟩ := h
     have := List.find?_eq_none.mp hu p hp
     simp only [memberNames, Bool.not_eq_true', List.contains_eq_mem, decide_eq_false_iff_not,
-      mem_dedupF, Bool.not_eq_false, decide_eq_true_eq, Decidable.not_not] at this
+      mem_dedupF, Decidable.not_not] at this
     exact hnot this
 
 /-- **impl_missing_abstract_rejected.**  An implementation (naming only known members) that
